@@ -82,15 +82,18 @@ def run(ctx):
             w.write_module(extname, "import dds\nfrom harness.c14 import EXEC_LOG\n\ndef e():\n    return 'e1'\n\n"
                                     "@dds.data_function('/q_ext')\ndef dq():\n    EXEC_LOG.append('dq')\n    return 'dq'\n", accept=False)
 
+            hv = [1]      # the value of the tracked variable HV of the helper module
+
             def helper_src(v):
-                return "def h():\n    return 'h%d'\n" % v
+                return "HV = %d\n\ndef h():\n    return 'h%d'\n" % (hv[0], v)
 
             def main_src(v):
+                # the helper's function h and its variable HV are reached in the same way (name / from-import / dotted attribute)
                 if form == "same_module":
-                    return ("import dds\nimport %s as ext\n\n%s\ndef top():\n    return h() + ext.e()\n" % (extname, helper_src(v)))
+                    return ("import dds\nimport %s as ext\n\n%s\ndef top():\n    return h() + ext.e() + str(HV)\n" % (extname, helper_src(v)))
                 if form == "from_import":
-                    return ("import dds\nimport %s as ext\nfrom %s import h\n\ndef top():\n    return h() + ext.e()\n" % (extname, helpmod))
-                return ("import dds\nimport %s as ext\nimport %s\n\ndef top():\n    return %s.h() + ext.e()\n" % (extname, helpmod, helpmod))
+                    return ("import dds\nimport %s as ext\nfrom %s import h, HV\n\ndef top():\n    return h() + ext.e() + str(HV)\n" % (extname, helpmod))
+                return ("import dds\nimport %s as ext\nimport %s\n\ndef top():\n    return %s.h() + ext.e() + str(%s.HV)\n" % (extname, helpmod, helpmod, helpmod))
             # accept exactly: prefix of depth k (+ n_other unrelated packages)
             for p in list(_accepted_packages):
                 if p not in before:
@@ -128,9 +131,19 @@ def run(ctx):
                 w.rewrite_module(helpmod, helper_src(2))
                 mod = w.rewrite_module(modname, main_src(2))
             s2 = sig_of()
-            if s2[0] != "ok" or s2[1] == s1[1] or s2[2] != "h2e1":
+            if s2[0] != "ok" or s2[1] == s1[1] or s2[2] != "h2e11":
                 res.violations.append({"what": "editing a reachable function of an accepted module did not change the signature / value: %s -> %s" % (s1, s2),
                                        "input": case, "kf": None})
+            # edit the tracked variable of the accepted helper module only
+            hv[0] = 2
+            if form != "same_module":
+                w.rewrite_module(helpmod, helper_src(2))
+            mod = w.rewrite_module(modname, main_src(2))
+            s2v = sig_of()
+            if s2v[0] != "ok" or s2v[1] == s2[1] or s2v[2] != "h2e12":
+                res.violations.append({"what": "editing a tracked variable of an accepted module (read through: %s) did not change the signature / value: %s -> %s" % (form, s2, s2v),
+                                       "input": case, "kf": None})
+            s2 = s2v
             # edit the non-accepted module
             w.rewrite_module(extname, "import dds\nfrom harness.c14 import EXEC_LOG\n\ndef e():\n    return 'e2'\n\n"
                                       "@dds.data_function('/q_ext')\ndef dq():\n    EXEC_LOG.append('dq')\n    return 'dq'\n")
@@ -168,7 +181,4 @@ def run(ctx):
     for v in res.violations:
         uniq.setdefault(v["what"][:50], v)
     res.violations = list(uniq.values())
-    from . import kf_witnesses
-    kf_witnesses.run_witness(res, "C14-KF1", kf_witnesses.c14_module_attribute_variable,
-                             "a variable of an accepted module read through an attribute reference (module.VAR) is not tracked")
     return res
